@@ -54,6 +54,9 @@ def construct_expression_tree(
     elif all([isinstance(item, str) for item in expression_ast]):
         if expression_ast[0] in LEGAL_NUMERIC_OPERATORS:
             # Probably someone trying to perform numerical operation on constants.
+            if len(expression_ast) != 3:
+                raise SyntaxError("Only binary numerical expressions are supported!")
+
             first_operand = float(expression_ast[1])
             second_operand = float(expression_ast[2])
             node = AnyNode(
@@ -81,6 +84,9 @@ def construct_expression_tree(
             },
         )
         return AnyNode(id=str(new_function), value=new_function)
+
+    if len(expression_ast) != 3:
+        raise SyntaxError("Only binary numerical expressions are supported!")
 
     node = AnyNode(
         id=expression_ast[0],
